@@ -1064,6 +1064,9 @@ def fine_cases(rng, n):
                     t[2]["pd"]["data"]["arr"]["dt"] = "f8"
             if x.get("data") is not None and rng.random() < 0.6:
                 x["data"]["arr"]["dt"] = "f8"
+        for c in ([x] if kind == "cons" else [t[2] for t in x["cons"]] if kind == "field" else []):
+            if c.get("bounds") is not None:
+                c["bounds"]["props"] = [kv for kv in c["bounds"]["props"] if kv[0] not in INHERITABLE]
         r = make_fine(rng, {"k": kind, "v": x})
         if r is None:
             continue
@@ -1076,6 +1079,169 @@ def fine_cases(rng, n):
             ty["v"] = rename_keys(ty["v"], rng)
         out.append(mk_case("fine", kind, tx["v"], ty["v"], o, label, lvl, exp=exp, seq=True, fine=True))
         out.append(mk_case("fine", kind, ty["v"], tx["v"], o, label, lvl, exp=exp, seq=False, fine=True))
+    return out
+
+
+# ---- ignore_properties in each of its forms, naming exactly the property that differs -------------
+INHERITABLE = ("units", "standard_name", "axis", "positive", "calendar", "month_lengths", "leap_year", "leap_month")
+
+
+def ip_directed_cases(rng, n):
+    """One property differs (value / added / removed); ignore_properties names exactly that property
+    (or, as a control, another one) as a str, a list or a tuple, crossed with ignore_fill_value
+    unset / True / False - on every Properties subclass called directly, and on fields."""
+    out = []
+    for _ in range(n):
+        kind = rng.choice(["cons"] * 6 + ["bounds"] * 2 + ["field"] * 2)
+        if kind == "cons":
+            cls = rng.choice(list(GCLS))
+            x = gen_cons(rng, cls, [3], rng.choice(NAMES), simple=True)
+            props = lambda d: d["pd"]["props"]
+        elif kind == "bounds":
+            x = gen_pd(rng, [3, 2], None, allow_str=False)
+            props = lambda d: d["props"]
+        else:
+            x = gen_field(rng, rng.random() < 0.8)
+            props = lambda d: d["props"]
+        if not any(k == "long_name" for k, _ in props(x)):
+            props(x).append(["long_name", {"s": rng.choice(["alpha", "beta"])}])
+        y = copy.deepcopy(x)
+        pc = p_props(rng, props(y), rng.choice(["prop_value", "prop_add", "prop_del"]))
+        if pc is None:
+            continue
+        name = pc.split(":")[1]
+        if name in ("units", "calendar"):
+            continue            # mirrored on the data: ignoring the property does not hide it
+        named = name if rng.random() < 0.8 else rng.choice([q for q in ("comment", "foo", "long_name") if q != name])
+        form = rng.choice(["str", "str", "list", "tuple", "list2", "tuple2"])
+        o = {}
+        if form == "str":
+            o["ip"] = named
+        else:
+            o["ip"] = [named] + (["history"] if form.endswith("2") else [])
+            o["ip_tuple"] = form.startswith("tuple")
+        ifv = rng.choice([None, True, True, False])
+        if ifv is not None:
+            o["ifv"] = ifv
+        if rng.random() < 0.2:
+            o["idt"] = True
+        if rng.random() < 0.2:
+            o["rtol"], o["atol"] = [0, 1], [0, 1]
+        lvl = "fieldprop" if kind == "field" else "top"
+        label = ("f" + pc) if kind == "field" else pc
+        out.append(mk_case("ip-directed", kind, x, y, o, label, lvl, seq=rng.random() < 0.3))
+        out.append(mk_case("ip-directed", kind, y, x, o, label, lvl, seq=False))
+    return out
+
+
+# ---- bounds that set a property they inherit from the parent coordinate ------------------------------
+def _inh_values(rng, p, parent_props):
+    """(value the parent has / would have, contradicting value, same value in another dtype or None)"""
+    if p == "standard_name":
+        cur = _pget(parent_props, "standard_name")
+        q = cur["s"] if cur is not None and "s" in cur else "latitude"
+        return {"s": q}, {"s": q + "_other"}, None
+    if p == "axis":
+        return {"s": "Y"}, {"s": "X"}, None
+    if p == "positive":
+        return {"s": "up"}, {"s": "down"}, None
+    if p == "units":
+        return {"s": "m"}, {"s": "km"}, None
+    if p in ("leap_month", "leap_year"):
+        v = rng.choice([2, 4])
+        mk = lambda val, dt: {"shape": [], "dt": dt, "vals": [val], "ma": False, "py": True}
+        return mk(v, "i8"), mk(v + 1, "i8"), mk(v, "f8")
+    v = [rng.randint(28, 31) for _ in range(3)]
+    mk = lambda vals, dt: {"shape": [3], "dt": dt, "vals": list(vals), "ma": False}
+    return mk(v, "i8"), mk([v[0] + 1] + v[1:], "i8"), mk(v, "i4")
+
+
+def _put(props, name, val):
+    for kv in list(props):
+        if kv[0] == name:
+            props.remove(kv)
+    if val is not None:
+        props.append([name, copy.deepcopy(val)])
+
+
+def bounds_inherit_cases(rng, n):
+    out = []
+    for _ in range(n):
+        cls = rng.choice(["dim", "aux", "aux", "domanc"])
+        m = rng.choice([2, 3])
+        x = gen_cons(rng, cls, [m], rng.choice(NAMES), simple=True)
+        if x["pd"]["data"]["arr"]["dt"] == "U":
+            x["pd"]["data"]["arr"]["dt"] = "f8"
+        if x["bounds"] is None:
+            b = gen_pd(rng, [m, 2], None, allow_str=False)
+            b["props"] = [] if rng.random() < 0.6 else gen_props(rng)
+            x["bounds"] = b
+        x["bounds"]["props"] = [kv for kv in x["bounds"]["props"] if kv[0] not in INHERITABLE]
+        p = rng.choice(["standard_name", "axis", "positive", "positive", "leap_month", "leap_year", "month_lengths", "units"])
+        q, qc, qd = _inh_values(rng, p, x["pd"]["props"])
+        which = rng.choice(["contra", "contra", "repeat", "repeat", "both_contra", "contra_vs_repeat", "noparent",
+                            "repeat_both", "dtype"])
+        if which == "dtype" and qd is None:
+            which = "contra"
+        if which == "noparent" and p in ("units",):
+            which = "contra"
+        _put(x["pd"]["props"], p, None if which == "noparent" else q)
+        y = copy.deepcopy(x)
+        if which == "contra":
+            _put(y["bounds"]["props"], p, qc)
+            exp = False
+        elif which == "repeat":
+            _put(y["bounds"]["props"], p, q)
+            exp = True
+        elif which == "both_contra":
+            _put(x["bounds"]["props"], p, qc)
+            _put(y["bounds"]["props"], p, qc)
+            exp = True
+        elif which == "contra_vs_repeat":
+            _put(x["bounds"]["props"], p, q)
+            _put(y["bounds"]["props"], p, qc)
+            exp = False
+        elif which == "noparent":
+            _put(y["bounds"]["props"], p, q)
+            exp = False
+        elif which == "repeat_both":
+            _put(x["bounds"]["props"], p, q)
+            _put(y["bounds"]["props"], p, q)
+            exp = True
+        else:
+            _put(y["bounds"]["props"], p, qd)
+            exp = False
+        o = gen_opts(rng, loose_p=0.1)
+        o.pop("itype", None)
+        if rng.random() < 0.3:
+            o["ip"] = [p]            # reaches the parent only, never the bounds
+            o["ip_tuple"] = rng.random() < 0.5
+        elif "ip" in o and (o["ip"] == "standard_name" or o["ip"] == ["standard_name"]):
+            o.pop("ip")
+        label = "bounds_inh_" + which
+        if rng.random() < 0.4:
+            # the same pair of constructs inside two fields
+            def wrap(c):
+                f = {"isfield": True, "props": [["standard_name", {"s": "air_temperature"}]], "data": None, "daxes": None,
+                     "axes": [["domainaxis0", m], ["domainaxis1", 2]],
+                     "cons": [[f"{KEYBASE[cls]}0", ["domainaxis0"], c]], "cms": [], "crs": []}
+                if rng.random() < 0.7:
+                    f["daxes"] = ["domainaxis0", "domainaxis1"]
+                    f["data"] = {"arr": {"shape": [m, 2], "dt": "f8", "vals": list(range(2 * m)), "ma": False},
+                                 "fill": None, "units": None, "cal": None, "comp": None}
+                return f
+            st = rng.getstate()
+            fx = wrap(x)
+            rng.setstate(st)
+            fy = wrap(y)
+            if rng.random() < 0.3:
+                fy = rename_keys(fy, rng)
+            o.pop("ip", None)
+            out.append(mk_case("bounds-inherit", "field", fx, fy, o, label, "top", exp=exp))
+            out.append(mk_case("bounds-inherit", "field", fy, fx, o, label, "top", exp=exp))
+        else:
+            out.append(mk_case("bounds-inherit", "cons", x, y, o, label, "top", exp=exp, seq=rng.random() < 0.4))
+            out.append(mk_case("bounds-inherit", "cons", y, x, o, label, "top", exp=exp))
     return out
 
 
@@ -1453,6 +1619,10 @@ def generate(chk):
             cases.append(mk_case("malformed-interval-count", "field", y, x, o, which, "top"))
     # (e) differences below the default tolerances, with zero and default tolerances
     cases += fine_cases(rng, 170 * scale)
+    # (e2) ignore_properties in each form naming the property that differs, x ignore_fill_value
+    cases += ip_directed_cases(rng, 170 * scale)
+    # (e3) bounds that set a property they inherit from their parent (redundant-property rule)
+    cases += bounds_inherit_cases(rng, 170 * scale)
     # (f) string data held wider than its longest element (equal: commit 61b774a)
     cases += strwidth_cases(rng, 40 * scale)
     # (g) the field's data moved from a coordinate-less axis to a same-size axis that has a coordinate
